@@ -7,7 +7,8 @@ spec (on impl) : accepted  <=> major <= 2 and (no expected name or device name e
                  not flagged) [for in-order responses]; a rejection raises exactly: incompatible version -> the base
                  APIConnectionError, name -> BadNameAPIError carrying the received name, password -> InvalidAuthAPIError;
                  in every rejecting run the connection ends closed and the stop callback is not invoked
-The noise-hello name check is C03's (c03_name) / C04's (badName class).
+Noise sessions (the ServerHello name AND the HelloResponse name are both checked) are driven with a from-spec responder
+and judged by the same oracle; the noise-hello name check itself is also C03's (c03_name) / C04's (badName class).
 """
 from __future__ import annotations
 
@@ -60,6 +61,90 @@ def run_one(major, minor, name, expected, login, password, invalid, order, cuts)
             "client_conn_cleared": client._connection is None, "exc_type": type(exc).__name__ if exc else None}
     net.close()
     return res, info
+
+
+PSK = bytes(range(32))
+
+
+def run_one_noise(major, name, server_name, expected, login, password, invalid):
+    """the same question over an encrypted session: a from-spec responder (noisedev) completes the handshake, announcing
+    `server_name` (None = an old device that sends none) in its ServerHello, then answers HelloResponse / ConnectResponse"""
+    import noisedev
+
+    net = simnet.Net()
+    loop = net.loop
+    net.auto_resolve = net.auto_sock = True
+    client = APIClient("10.0.0.1", 6053, password, expected_name=expected, noise_psk=noisedev.NoiseDevice.b64(PSK))
+    stops = []
+
+    async def on_stop(e):
+        stops.append(e)
+
+    o = simnet.spawn(loop, client.connect(on_stop=on_stop, login=login), "connect")
+    loop.run_idle()
+    conn = client._connection
+    dev = noisedev.NoiseDevice(PSK, server_name.encode() if server_name is not None else None)
+    first = b"".join(d for _, d in net.tr.writes)
+    dev.read_client_hello(first)
+    net.feed(noisedev.frame(dev.hello_body()) + noisedev.frame(dev.handshake_body()))
+    loop.run_idle()
+    if not o.done:
+        hello = pb.HelloResponse(api_version_major=major, api_version_minor=10, name=name, server_info="x").SerializeToString()
+        cresp = pb.ConnectResponse(invalid_password=invalid).SerializeToString()
+        net.feed(noisedev.frame(dev.seal(noisedev.inner(2, hello))[0]) + noisedev.frame(dev.seal(noisedev.inner(4, cresp))[0]))
+        loop.run_idle()
+    if not o.done:
+        loop.advance(31.0)
+    res = o.cls()
+    res = res if res in ("ok", "pending") or res.startswith("raw") else "err:" + res
+    exc = o.task.exception() if o.task.done() and not o.task.cancelled() else None
+    info = {"state": connstate(conn), "stops": list(stops), "received_name": getattr(exc, "received_name", None),
+            "exc_type": type(exc).__name__ if exc else None}
+    net.close()
+    return res, info
+
+
+def noise_cases(ck: Check):
+    rng, thorough = ck.rng, ck.tier == "thorough"
+    servers = [None, EXPECTED, "kitchen", ""]
+    hnames = ["", EXPECTED, "kitchen", EXPECTED + "x"]
+    base = list(itertools.product([1, 2, 3], hnames, servers, [None, EXPECTED], [False, True], [False, True]))
+    if not thorough:
+        rng.shuffle(base)
+        base = base[:150]
+    n = 0
+    for major, name, server_name, expected, login, invalid in base:
+        password = rng.choice([None, "secret"])
+        res, info = run_one_noise(major, name, server_name, expected, login, password, invalid)
+        n += 1
+        rep = {"noise": True, "major": major, "name": name, "server_hello_name": server_name, "expected": expected, "login": login,
+               "invalid_password": invalid, "observed": res, "info": {k: str(v) for k, v in info.items()}}
+        # the ServerHello name, when announced (even an empty one: C03 "accepted iff no expected name is configured or the
+        # names are equal") and an expected name is configured, must match already
+        if expected is not None and server_name is not None and server_name != expected:
+            if not (res == "err:badName" and info["received_name"] == server_name):
+                ck.violation("c06:noise-hello-name", f"noise ServerHello announced {server_name!r}, expected {expected!r}: observed "
+                             f"{res} received_name={info['received_name']!r}", rep)
+            continue
+        name_ok = (name == "") or expected is None or name == expected
+        should_accept = major <= 2 and name_ok and (not login or not invalid)
+        bad = None
+        if should_accept != (res == "ok"):
+            bad = f"accept-mismatch: should_accept={should_accept} observed={res}"
+        elif not should_accept:
+            if major > 2:
+                if not (res == "err:base" and info["exc_type"] == "APIConnectionError"):
+                    bad = f"incompatible version reported as {res}/{info['exc_type']}"
+            elif not name_ok:
+                if not (res == "err:badName" and info["received_name"] == name):
+                    bad = f"bad name reported as {res} received_name={info['received_name']!r}"
+            elif res != "err:invalidAuth":
+                bad = f"invalid password reported as {res}"
+            if bad is None and (info["state"] != "closed" or info["stops"]):
+                bad = f"rejected but state={info['state']} stops={info['stops']}"
+        if bad:
+            ck.violation("c06:noise:" + bad.split(":")[0].split(" ")[0], "C06 violated on the implementation (noise session): " + bad, rep)
+    return n
 
 
 def connstate(conn):
@@ -166,8 +251,10 @@ def run(ck: Check):
                 dist["invalidAuth"] += 1
             else:
                 dist["other"] += 1
+    n_noise = noise_cases(ck)
+    dist["noise_sessions"] = n_noise
     ck.coverage.update({
-        "evaluations": len(cases), "model_verdicts_compared": n,
+        "evaluations": len(cases) + n_noise, "model_verdicts_compared": n,
         "distinct_nontrivial": len(set(cases)),
         "rule": "case = (major, minor, device name, expected name set/unset, login, password set/unset, password verdict, "
                 "response order incl. wrong orders and a missing stop response, chunking); distinct by that tuple",
@@ -176,5 +263,6 @@ def run(ck: Check):
                     for c in cases[:3]],
         "distribution": dist, "exhaustive": thorough,
     })
-    ck.assumptions += ["plaintext framing (the noise hello's name check is C03/C04)",
+    ck.assumptions += ["the model verdict is compared on plaintext sessions; noise sessions (from-spec responder, ServerHello name "
+                       "absent / right / wrong x HelloResponse name x version x login) are judged by the oracle",
                        "the device stays silent after the swept responses; virtual time runs to the 30 s hello/login timeout"]
